@@ -26,6 +26,15 @@ def bases(rng, tier):
             h.opts = [(3, b"opt")]
         h.ddigest = rng.rbytes(zckfmt.DSIZE[ht])
         out.append(h.build() + rng.rbytes(20))
+        # a twin whose stored header digest contains 0x00 early (string-style comparisons stop there)
+        for _ in range(4000):
+            h.ddigest = rng.rbytes(zckfmt.DSIZE[ht])
+            f = h.build()
+            l = zckfmt.parse_lead(f)
+            dg = f[l["dloc"]:l["lead"]]
+            if 0 in dg[:4]:
+                out.append(f + rng.rbytes(20))
+                break
     return out
 
 
@@ -47,14 +56,20 @@ def run(res, tier, only_case=None):
         for f in files:
             l = zckfmt.parse_lead(f)
             hdr_end = l["lead"] + l["hlen"]
-            lines.append("B " + vlib.hexs(f)); meta.append(("base", 0, 0))
-            lines.append("m 0 %d" % f[0]); meta.append(("identity", 0, f[0]))
-            for pos in range(hdr_end):
+            for pinned in (False, True):
+              lines.append("B " + vlib.hexs(f)); meta.append(("base", 0, 0))
+              if pinned:
+                  # the same sweep through the pinned-digest path (type and digest of the pristine file)
+                  lines.append("P %d %s -" % (l["ht"], f[l["dloc"]:l["lead"]].hex())); meta.append(("pins", 0, 0))
+              lines.append("m 0 %d" % f[0]); meta.append(("identity", 0, f[0]))
+              for pos in range(hdr_end):
+                if pinned and tier == "quick" and pos % 3 != 1 and not (l["dloc"] <= pos < l["lead"]):
+                    continue
                 if tier == "thorough":
                     vals = [v for v in range(256) if v != f[pos]]
                 else:
                     vals = {f[pos] ^ (1 << b) for b in range(8)}
-                    while len(vals) < 32:
+                    while len(vals) < (32 if not pinned else 12):
                         v = rng.randrange(256)
                         if v != f[pos]:
                             vals.add(v)
@@ -67,19 +82,21 @@ def run(res, tier, only_case=None):
             hl = l["hlen"]
     mo, _ = vlib.run_cases(model, lines, wd, "model", timeout=1800)
     io, _ = vlib.run_cases(impl, lines, wd, "impl", env={"ZH_TMP": wd, "ZH_AS_LIMIT_MB": "2048"}, timeout=1800)
-    base = None
+    base, pins_line = None, None
     for (kind, pos, v), line, m, i in zip(meta, lines, mo, io):
         mres, spec = vlib.split_model(m)
         if kind == "base":
-            base = vlib.unhex(line.split()[1]); continue
+            base = vlib.unhex(line.split()[1]); pins_line = None; continue
+        if kind == "pins":
+            pins_line = line; continue
         res.evaluations += 1
-        case = {"lines": ["B " + vlib.hexs(base), line], "impl": i, "model": mres}
-        key = "c06:%s:%s" % (vlib.hashlib.sha256(base).hexdigest()[:10], line.replace(" ", "_"))
+        case = {"lines": ["B " + vlib.hexs(base)] + ([pins_line] if pins_line else []) + [line], "impl": i, "model": mres}
+        key = "c06:%s:%s%s" % (vlib.hashlib.sha256(base).hexdigest()[:10], line.replace(" ", "_"), ":pinned" if pins_line else "")
         if kind == "identity":
             if not i.startswith("OK"):
                 res.violation("harness", "c06:base-invalid", "base file does not open: %s" % i, case)
             continue
-        res.nontrivial.add((vlib.hashlib.sha256(base).hexdigest()[:10], line))
+        res.nontrivial.add((vlib.hashlib.sha256(base).hexdigest()[:10], line, bool(pins_line)))
         res.count(kind + (":accepted" if i.startswith("OK") else ":rejected"))
         if i.startswith("OK"):
             magic_switch = kind == "subst" and pos < 5 and (base[:pos] + bytes([v]) + base[pos + 1:5]) in (b"\0ZCK1", b"\0ZHR1")
@@ -92,7 +109,7 @@ def run(res, tier, only_case=None):
     if only_case is None:
         sub, cur = [], None
         for k, (mt, line) in enumerate(zip(meta, lines)):
-            if mt[0] == "base" or k % 23 == 0:
+            if mt[0] in ("base", "pins") or k % 23 == 0:
                 sub.append(line)
         ao, aerr = vlib.run_cases(impl_asan, sub, wd, "asan", env={"ZH_TMP": wd}, timeout=1800)
         for line, a in zip(sub, ao):
